@@ -341,7 +341,7 @@ def job(arg):
                tlc=None, sample=None, nontrivial=0, random_runs=0, trace_records=[])
     d = V.stage_spec(["Mailbox"], mc_files(c))
     dot = os.path.join(d, "g.dot")
-    r = V.run_tlc(d, "MC", "MC.cfg", workers=1, args=["-dump", "dot,actionlabels", dot], timeout=900, heap="3g")
+    r = V.run_tlc(d, "MC", "MC.cfg", workers=1, args=["-dump", "dot,actionlabels", dot], timeout=2700, heap="3g")
     res["tlc"] = dict(generated=r.generated, distinct=r.distinct, depth=r.depth, ok=r.ok, violated=r.violated,
                       deadlock=r.deadlock, wall=r.wall)
     res["states"], res["transitions"] = r.distinct, r.generated
